@@ -16,6 +16,7 @@ import Mahotas.Proofs.C15Hull
 import Mahotas.Proofs.C15Graham
 import Mahotas.Proofs.C15Euler
 import Mahotas.Proofs.C15Cell
+import Mahotas.Proofs.C15Count
 open Mahotas Mahotas.C15
 
 /-- **thin ⊆ input.** Every pixel set in the model of `mahotas.thin` (crop to the bounding box, zero
@@ -350,3 +351,41 @@ example : verticesN true (Bin.ofInts 1 1 [1]) = 4 ∧ edgesN true (Bin.ofInts 1 
     verticesN true (Bin.ofInts 2 2 [1, 0, 0, 1]) = 7 ∧ edgesN true (Bin.ofInts 2 2 [1, 0, 0, 1]) = 8 ∧
     edgesN false (Bin.ofInts 2 2 [1, 0, 0, 1]) = 0 := by
   decide +kernel
+
+/-- **thin keeps the NUMBER of 8-connected components** — literally: `Comps A` is the set of 8-connected components of
+the pixel set `A` (the quotient of `A` by 8-connectivity inside `A`); for every image and every `max_iter` the component
+sets of the input and of the model of `mahotas.thin` have the same (finite) cardinality, and so have the pixel sets
+before and after every single pass and before and after the loop. (`SameComps A B` gives the bijection
+`Comps B → Comps A` induced by the inclusion: `compMap_bijective`.) -/
+theorem C15_thin_same_number_of_components (b : Bin) (maxIter : Int) :
+    Nat.card (Comps (bset (thinModel b maxIter))) = Nat.card (Comps (bset b)) ∧
+    Finite (Comps (bset b)) ∧ Finite (Comps (bset (thinModel b maxIter))) ∧
+    Nat.card (Comps (bset (thinCore b maxIter))) = Nat.card (Comps (bset b)) ∧
+    (∀ e ∈ Generated.thinElems, Nat.card (Comps (bset (pass b e))) = Nat.card (Comps (bset b))) :=
+  ⟨(thinModel_sameComps b maxIter).card_eq, comps_finite b, comps_finite _,
+   (thinCore_sameComps b maxIter).card_eq,
+   fun e he => (C15_thin_pass_preserves_components e he b).card_eq⟩
+
+/-- non-vacuity: the one-pixel image has exactly one component -/
+example : Nat.card (Comps (bset (Bin.ofInts 1 1 [1]))) = 1 := by
+  rw [Nat.card_eq_one_iff_unique]
+  have hmem : ((0, 0) : Px) ∈ bset (Bin.ofInts 1 1 [1]) := by
+    show (Bin.ofInts 1 1 [1]).get 0 0 = true
+    decide
+  refine ⟨⟨fun qa qb => ?_⟩, ⟨Quotient.mk _ ⟨(0, 0), hmem⟩⟩⟩
+  induction qa using Quotient.ind with
+  | _ a =>
+    induction qb using Quotient.ind with
+    | _ c =>
+      have ha := get_inrange _ a.1.1 a.1.2 a.2
+      have hc := get_inrange _ c.1.1 c.1.2 c.2
+      have hac : a = c := by
+        apply Subtype.ext
+        apply Prod.ext
+        · have h1 := ha.1; have h2 := ha.2.1; have h3 := hc.1; have h4 := hc.2.1
+          simp only [Bin.ofInts] at h2 h4
+          omega
+        · have h1 := ha.2.2.1; have h2 := ha.2.2.2; have h3 := hc.2.2.1; have h4 := hc.2.2.2
+          simp only [Bin.ofInts] at h2 h4
+          omega
+      rw [hac]
